@@ -34,6 +34,30 @@ func main() {
 				af.WriteTo(os.Stdout)
 			}
 		}
+	case "modset":
+		w, err := loadWorld("./pkg/...")
+		if err != nil {
+			fmt.Fprintln(os.Stderr, err)
+			os.Exit(2)
+		}
+		cs, err := loadContracts(w.RepoDir, "/verif/contracts/assumed")
+		if err != nil {
+			fmt.Fprintln(os.Stderr, err)
+			os.Exit(2)
+		}
+		ms := modsetAnalysis(w, cs)
+		for _, k := range os.Args[2:] {
+			fn := w.lookupFunc(k)
+			if fn == nil {
+				fmt.Println("not found:", k)
+				continue
+			}
+			e := ms.eff[fn]
+			fmt.Println(k, "writes:")
+			for _, c := range sortedKeys(e.comps) {
+				fmt.Println("   ", c)
+			}
+		}
 	default:
 		os.Exit(cmdMain(os.Args[1:]))
 	}
